@@ -528,10 +528,12 @@ class FileIndex(Index):
             def segreader(segment):
                 if segment in reusable:
                     r = reusable[segment]
-                    # An open reader carries the deletions of the generation
-                    # it was opened on; only reuse it if they are unchanged
+                    # An open reader carries the deletions and the schema of
+                    # the generation it was opened on; only reuse it if they
+                    # are unchanged
                     if (set(r.segment().deleted_docs())
-                        == set(segment.deleted_docs())):
+                        == set(segment.deleted_docs())
+                        and r.schema == schema):
                         del reusable[segment]
                         # The recycled reader now represents this generation
                         r._gen = generation
